@@ -65,13 +65,13 @@ def rotation_families(tier: str) -> Dict[str, Dict[str, Any]]:
 
 def order_families(tier: str) -> Dict[str, Dict[str, Any]]:
     wide = tier != "quick"
-    gaps = [0, C1 - 1, C1, C2, FAR] if not wide else [-2, 0, C1 - 1, C1, C1 + 1, C2 - 1, C2, C2 + 1, FAR]
+    gaps = [0, C1, C2, FAR] if not wide else [-2, 0, C1 - 1, C1, C1 + 1, C2 - 1, C2, C2 + 1, FAR]
     return {
         "ord3": {"lens": (3, 4, 3), "gaps": gaps,
                  "hits": [("a", "b", "a"), ("ab", "c", "b"), ("b", "a", "c")], "rulesets": ORD_RULESETS,
-                 "leads": [0, 3], "tails": [0, 6], "cuts": -1},
-        "ord2": {"lens": (3, 4), "gaps": gaps + [14], "hits": [("a", "b"), ("ab", "c")],
-                 "rulesets": ORD_RULESETS, "leads": [0, 3], "tails": [0, 6], "cuts": 0},
+                 "leads": [0, 3], "tails": [0, 6], "cuts": -2 if not wide else 0},
+        "ord2": {"lens": (3, 4), "gaps": gaps + [C1 - 1, 14], "hits": [("a", "b"), ("ab", "c")],
+                 "rulesets": ORD_RULESETS, "leads": [0, 3], "tails": [0, 6], "cuts": -1 if not wide else 1},
     }
 
 
@@ -133,13 +133,16 @@ ROT_CLAUSES = {"hits": "rotation-same-rule-hits", "protoclusters": "rotation-sam
                "candidates": "rotation-same-candidate-clusters", "regions": "rotation-same-regions"}
 
 
-def pair_label(base: Dict[str, Any], other: Dict[str, Any]) -> str:
+def pair_label(base: Dict[str, Any], other: Dict[str, Any], only: Sequence[str] = ()) -> str:
     """ the first known input class that the base or the re-indexed / re-ordered case touches """
     names = known.case_mechanisms(base) + known.case_mechanisms(other)
     for name in known.CASE_PRIORITY:
-        if name in names:
+        if name in names and (not only or name in only):
             return f"[{name}]"
     return ""
+
+
+ORDER_DEPENDENT = ("stale-cutoff-cache",)
 
 
 def compare_rotation(base: Dict[str, Any], base_obs: model.Observed, cut: int
@@ -188,39 +191,48 @@ def rule_view(case: Dict[str, Any], obs: model.Observed, name: str) -> Tuple[Any
 
 def compare_orders(case: Dict[str, Any]) -> List[Tuple[str, bool, str, Dict[str, Any]]]:
     """ the clauses of the rule-order half of C07 for one record and ruleset: every ordered
-        sub-selection is run; per rule, all runs with the same superiors of that rule present must
-        agree. Returns (clause, holds, detail, where) with where = the two orderings compared. """
+        sub-selection is run. Per rule: runs over the same set of rules must agree whatever the order
+        (order-independent); the first run of every set must agree with the first run in which the
+        same SUPERIORS of that rule are present (subset-independent).
+        Returns (clause, holds, detail, where) with where = the rule and the two orderings compared. """
     rules = case["rules"]
     runs = []
     for selection in ordered_selections(rules):
         names = [r["n"] for r in selection]
-        sub = dict(case, rules=selection)
-        runs.append((names, sub, model.observe(case, rules=selection)))
+        runs.append((names, dict(case, rules=selection), model.observe(case, rules=selection)))
     out = []
+
+    def compare(clause: str, name: str, ref: Any, new: Any) -> None:
+        (ref_names, ref_sub, ref_obs), (names, sub, obs) = ref, new
+        suffix = pair_label(ref_sub, sub, ORDER_DEPENDENT) if case["circ"] else ""
+        where = {"rule": name, "first": ref_names, "second": names}
+        crashed = [o.error for o in (ref_obs, obs) if o.error]
+        out.append(("order-no-exception" + suffix, not crashed, "; ".join(crashed), where))
+        if crashed:
+            return
+        one, two = rule_view(case, ref_obs, name), rule_view(case, obs, name)
+        out.append((clause + suffix, one == two,
+                    "" if one == two else f"rule {name}: with rules {ref_names}: {one}; with rules {names}: {two}",
+                    where))
+
     for rule in rules:
         name = rule["n"]
-        reference: Dict[Any, Tuple[List[str], Dict[str, Any], model.Observed]] = {}
-        for names, sub, obs in runs:
+        by_set: Dict[Any, Any] = {}
+        by_superiors: Dict[Any, Any] = {}
+        for entry in runs:
+            names = entry[0]
             if name not in names:
                 continue
+            key = frozenset(names)
+            if key in by_set:
+                compare("order-independent", name, by_set[key], entry)
+                continue
+            by_set[key] = entry
             present = frozenset(s for s in rule.get("sup") or [] if s in names)
-            if present not in reference:
-                reference[present] = (names, sub, obs)
-                continue
-            ref_names, ref_sub, ref_obs = reference[present]
-            same_set = sorted(ref_names) == sorted(names)
-            clause = "order-independent" if same_set else "subset-independent"
-            suffix = pair_label(ref_sub, sub) if case["circ"] else ""
-            where = {"rule": name, "first": ref_names, "second": names}
-            crashed = [o.error for o in (ref_obs, obs) if o.error]
-            if crashed:
-                out.append(("order-no-exception" + suffix, False, "; ".join(crashed), where))
-                continue
-            out.append(("order-no-exception" + suffix, True, "", where))
-            one, two = rule_view(case, ref_obs, name), rule_view(case, obs, name)
-            out.append((clause + suffix, one == two,
-                        "" if one == two else f"rule {name}: with rules {ref_names}: {one}; with rules {names}: {two}",
-                        where))
+            if present in by_superiors:
+                compare("subset-independent", name, by_superiors[present], entry)
+            else:
+                by_superiors[present] = entry
     return out
 
 
@@ -333,7 +345,7 @@ def _classifier(suffix: str) -> Any:
         by_name = {r["n"]: r for r in base["rules"]}
         first = dict(base, rules=[by_name[n] for n in where.get("first", [])])
         second = dict(base, rules=[by_name[n] for n in where.get("second", [])])
-        return bool(base["circ"]) and pair_label(first, second) == f"[{suffix}]"
+        return bool(base["circ"]) and pair_label(first, second, ORDER_DEPENDENT) == f"[{suffix}]"
     return predicate
 
 
